@@ -208,6 +208,12 @@ func c13dyn(c *wk.Ctx) {
 					idx++
 					continue
 				}
+				if name == "InitConnection" && len(args) == 1 {
+					// the wrapped query must be an object-returning function (see the note on wrappers above)
+					if p, ok := args[0].Interface().(*telegram.InitConnectionParams); ok {
+						p.Query = &telegram.HelpGetConfigParams{}
+					}
+				}
 				exp.mu.Lock()
 				exp.args = args
 				exp.rep = rep
